@@ -163,3 +163,38 @@ Check C16_numbersdirect_symlink_current.
 Print Assumptions C16_numbersdirect_symlink_current.
 Check C16_timestampsdirect_symlink_current.
 Print Assumptions C16_timestampsdirect_symlink_current.
+
+Require Import FL.Flw.TsdNames FL.Flw.TsdListing.
+(* TimestampsDirect naming: every file of every history is named as documented ... *)
+Theorem C16_timestampsdirect_names_documented c crit t0 off ops :
+  tsdcfg c crit -> tag_ok c -> not_gz c -> Forall basic_op ops -> Forall tick_ok ops ->
+  (0 <= t0 + ts_e c off)%Z -> (t0 + elapsed ops + ts_e c off < sec_max)%Z -> (N.of_nat (length ops) <= usize_max)%N ->
+  all_documented c (wfs (s_w (fst (run (sys0 t0 off) (OStart c :: ops ++ [OStop]))))).
+Proof. exact (timestampsdirect_names_documented c crit t0 off ops). Qed.
+
+(* ... and existing_log_files returns exactly the existing family files the selector asks for; there is no rCURRENT file in this
+   naming: with_r_current and an admissible custom current infix select nothing *)
+Theorem C16_timestampsdirect_listing_exact c crit t0 off ops sel :
+  tsdcfg c crit -> tag_ok c -> not_gz c -> Forall basic_op ops -> Forall tick_ok ops -> custom_ok_ts sel ->
+  (0 <= t0 + ts_e c off)%Z -> (t0 + elapsed ops + ts_e c off < sec_max)%Z -> (N.of_nat (length ops) <= usize_max)%N ->
+  let x := fst (run (sys0 t0 off) (OStart c :: ops)) in
+  exists l, step x (OQuery sel) = (x, ObsList 0%N l)
+            /\ oracle_listing sel c (snap_of x) l = true
+            /\ sort_names l = expected_listing sel c (snap_of x).
+Proof. exact (timestampsdirect_listing_exact c crit t0 off ops sel). Qed.
+
+Theorem C16_timestampsdirect_listing_no_current c crit t0 off ops sel :
+  tsdcfg c crit -> tag_ok c -> not_gz c -> Forall basic_op ops -> Forall tick_ok ops -> custom_ok_ts sel ->
+  (0 <= t0 + ts_e c off)%Z -> (t0 + elapsed ops + ts_e c off < sec_max)%Z -> (N.of_nat (length ops) <= usize_max)%N ->
+  let x := fst (run (sys0 t0 off) (OStart c :: ops)) in
+  exists l l0, step x (OQuery sel) = (x, ObsList 0%N l) /\ step x (OQuery (no_current sel)) = (x, ObsList 0%N l0)
+               /\ sort_names l = sort_names l0
+               /\ (sel_plain sel = false -> sel_gz sel = false -> l = []).
+Proof. exact (timestampsdirect_listing_no_current c crit t0 off ops sel). Qed.
+
+Check C16_timestampsdirect_names_documented.
+Print Assumptions C16_timestampsdirect_names_documented.
+Check C16_timestampsdirect_listing_exact.
+Print Assumptions C16_timestampsdirect_listing_exact.
+Check C16_timestampsdirect_listing_no_current.
+Print Assumptions C16_timestampsdirect_listing_no_current.
